@@ -59,6 +59,26 @@ class Check:
         self.ob(rule + ".floor", "%s: matched %d instance(s), floor %d" % (what, count, minimum), count >= minimum,
                 key="floor:" + what)
 
+    def include(self, tag, run_fn, prog, keep=None):
+        """Run another property's rule set as a part of this one (a clause of this property that is the other property's
+        subject, e.g. the wire leg of C05 is C01's codec).  Obligations and violations are re-labelled `<tag>(<rule>)`."""
+        sub = Check(self.pid, self.tier, self.level)
+        run_fn(sub, prog)
+        n = 0
+        for o in sub.obligations:
+            if keep is None or keep(o["rule"]):
+                self.obligations.append({"rule": "%s(%s)" % (tag, o["rule"]), "desc": o["desc"], "ok": o["ok"], "where": o["where"]})
+                n += 1
+        for v in sub.violations:
+            if keep is None or keep(v["rule"]):
+                self.violation("%s(%s)" % (tag, v["rule"]), v["key"].split("|", 2)[2], v["msg"], v["where"], v["extra"])
+        for a in sub.assumptions:
+            if a not in self.assumptions:
+                self.assumptions.append(a)
+        for k, items in sub.analysed.items():
+            self.note_analysed(k, items)
+        return n
+
     def sample(self, s):
         if len(self.samples) < 40:
             self.samples.append(s)
@@ -83,7 +103,10 @@ class Check:
         # stale replay files of this property
         for f in os.listdir(os.path.join(EVID, "violations")):
             if f.startswith(self.pid + "-"):
-                os.remove(os.path.join(EVID, "violations", f))
+                try:
+                    os.remove(os.path.join(EVID, "violations", f))
+                except FileNotFoundError:
+                    pass        # a concurrent run on another scratch tree (selftest replays share the scratch evidence directory)
         lines = []
         n_viol = 0
         n_known = 0
